@@ -12,6 +12,7 @@ ap.add_argument('--props', required=True)
 ap.add_argument('--keep', action='store_true')
 ap.add_argument('--baseline', action='store_true', help='also run the repository test suite on the mutant')
 ap.add_argument('--seed', default='0')
+ap.add_argument('--verif', default='/verif', help='verif tree whose harness/regress/findings are used (e.g. a worktree of an older commit)')
 ap.add_argument('mutants', nargs='+')
 a = ap.parse_args()
 props = a.props.split(',')
@@ -42,12 +43,12 @@ def worker(i):
     os.makedirs(lab)
     sh(f'rsync -a --exclude target /repo/ {lab}/repo/')
     sh(f'git -C {lab}/repo checkout -q -- . ; git -C {lab}/repo clean -fdq')
-    sh(f'rsync -a --exclude target /verif/harness/ {lab}/harness/')
+    sh(f'rsync -a --exclude target {a.verif}/harness/ {lab}/harness/')
     sh(f"sed -i 's|/repo/|{lab}/repo/|g' {lab}/harness/Cargo.toml")
     os.makedirs(f'{lab}/vr/evidence', exist_ok=True)
     for d in ('regress', 'findings'):
-        sh(f'rsync -a /verif/{d}/ {lab}/vr/{d}/')
-    shutil.copy('/verif/known_findings.json', f'{lab}/vr/known_findings.json')
+        sh(f'rsync -a {a.verif}/{d}/ {lab}/vr/{d}/')
+    shutil.copy(f'{a.verif}/known_findings.json', f'{lab}/vr/known_findings.json')
     env = dict(os.environ, CARGO_NET_OFFLINE='true', PV_VERIF_ROOT=f'{lab}/vr', VERIF_SEED=a.seed)
     while True:
         try: m = q.get_nowait()
